@@ -20,6 +20,7 @@ CHECKS = {
     "C16": {"sim": "searchsim", "quick": {"runs": 20000, "wall_s": 70, "runs_per_spec": 25, "run_wall_cap": 25, "spec": {"generators": True}, "gen_fault_rate": 0.08}, "thorough": {"runs": 1000000, "wall_s": 1500, "runs_per_spec": 30, "run_wall_cap": 40, "spec": {"max_h": 5, "max_r": 3}, "gen_fault_rate": 0.08}},
     "C09": {"sim": "treesim", "quick": {"runs": 60000, "wall_s": 45, "runs_per_spec": 1, "run_wall_cap": 10}, "thorough": {"runs": 3000000, "wall_s": 1200, "runs_per_spec": 1, "run_wall_cap": 10}},
     "C10": {"sim": "treesim", "quick": {"runs": 60000, "wall_s": 45, "runs_per_spec": 1, "run_wall_cap": 10}, "thorough": {"runs": 3000000, "wall_s": 1200, "runs_per_spec": 1, "run_wall_cap": 10}},
+    "C18": {"sim": "isolationsim", "quick": {"runs": 4000, "wall_s": 70, "runs_per_spec": 10, "run_wall_cap": 60, "spec": {}}, "thorough": {"runs": 200000, "wall_s": 1500, "runs_per_spec": 12, "run_wall_cap": 90, "spec": {}}},
     "C12": {
         "sim": "parsesim",
         "quick": {"runs": 40000, "wall_s": 60, "runs_per_spec": 30, "run_wall_cap": 15, "grammar": dict(GRAMMAR_DEFAULT, max_rules=4)},
